@@ -101,14 +101,6 @@ theorem storage_failures_invisible_oneshot (env : Env) (sf : List Bool) {w w' : 
 
 /-! ### Histories: any number of iterations, any failure pattern in each -/
 
-/-- Consecutive iterations of `run`'s loop; stops at the first iteration that does not complete. -/
-def runUnits : List UnitEnv → RunState → World → UnitResult × RunState × World
-  | [], rs, w => (.completed, rs, w)
-  | u :: rest, rs, w =>
-    match runUnit u rs w with
-    | (.completed, rs', w') => runUnits rest rs' w'
-    | other => other
-
 /-- **storage_failures_invisible (histories).** For every history of iterations and every
 assignment of storage-failure scripts to them, the run is indistinguishable from the one with
 working storage. -/
